@@ -1,4 +1,5 @@
 import Prom.Lemmas.C17Aux
+import Prom.Lemmas.C17Buckets
 
 namespace Prom.C17
 open Prom
@@ -30,6 +31,250 @@ theorem checkAndAdjustP_no_panic (defaults bs : List UInt64) (hd : defaults ≠ 
     cases hg : e.getLast? with
     | none => rw [List.getLast?_eq_none_iff] at hg; exact absurd hg hne
     | some t => rfl
+
+/-! ### bucket helper functions: `linear_buckets`, `exponential_buckets` -/
+
+/-- **linear_buckets_err_iff** — `linear_buckets(start, width, count)` returns `Err` exactly when
+    `count < 1` or `width <= 0.0` (IEEE comparison). `start` is never examined. Because `NaN <= 0.0`
+    is false, a NaN `width` is *accepted* by the code (see `linear_buckets_nan_width_accepted`): the
+    documented condition "width is zero or negative" is what is checked, not "width is positive". -/
+theorem linear_buckets_err_iff (start width : UInt64) (count : Nat) :
+    linearBuckets start width count = none ↔ count < 1 ∨ f64Le width f64Zero = true := by
+  unfold linearBuckets
+  by_cases hc : count < 1
+  · simp [hc]
+  · by_cases hw : f64Le width f64Zero = true
+    · simp [hw]
+    · simp [hc, hw]
+
+/-- the same condition spelled out on the bit pattern: `Err` iff `count = 0`, or `width` is a number
+    (not NaN) whose order key is `≤ 0` (a negative number, `-0.0` or `+0.0`; `-Inf` included) -/
+theorem linear_buckets_err_iff_key (start width : UInt64) (count : Nat) :
+    linearBuckets start width count = none ↔ count = 0 ∨ (f64IsNaN width = false ∧ f64Key width ≤ 0) := by
+  rw [linear_buckets_err_iff, f64Le_zero_iff]
+  constructor
+  · rintro (h | h)
+    · exact Or.inl (by omega)
+    · exact Or.inr h
+  · rintro (h | h)
+    · exact Or.inl (by omega)
+    · exact Or.inr h
+
+/-- a NaN `width` with a positive `count` is accepted (`Ok`): `NaN <= 0.0` is false. Every bucket
+    bound but possibly the first is then NaN; such a list is refused later by
+    `check_and_adjust_buckets` (`bucketsOk`), not by this function. `+Inf` is accepted likewise. -/
+theorem linear_buckets_nan_width_accepted (start width : UInt64) (count : Nat) (hc : 1 ≤ count)
+    (hn : f64IsNaN width = true) : (linearBuckets start width count).isSome = true := by
+  cases h : linearBuckets start width count with
+  | some l => rfl
+  | none =>
+    rcases (linear_buckets_err_iff start width count).1 h with h | h
+    · omega
+    · rw [f64Le_nan_left width f64Zero hn] at h; cases h
+
+/-- **linear_buckets_length** — on success the result has exactly `count` entries -/
+theorem linear_buckets_length (start width : UInt64) (count : Nat) (l : List UInt64)
+    (h : linearBuckets start width count = some l) : l.length = count := by
+  unfold linearBuckets at h
+  split at h
+  · cases h
+  · split at h
+    · cases h
+    · cases h
+      simp only [List.length_map, List.length_range]
+
+/-- on success entry `i` is `start + width * (i as f64)` -/
+theorem linear_buckets_entry (start width : UInt64) (count : Nat) (l : List UInt64)
+    (h : linearBuckets start width count = some l) (i : Nat) (hi : i < count) :
+    l[i]? = some (f64Add start (f64Mul width (f64OfNat i))) := by
+  unfold linearBuckets at h
+  split at h
+  · cases h
+  · split at h
+    · cases h
+    · cases h
+      simp [hi]
+
+/-- **exponential_buckets_err_iff** — `exponential_buckets(start, factor, count)` returns `Err`
+    exactly when `count < 1`, or `start <= 0.0`, or `factor <= 1.0` (IEEE comparisons). As for
+    `linear_buckets`, a NaN `start` or `factor` fails neither comparison and is accepted
+    (`exponential_buckets_nan_accepted`). -/
+theorem exponential_buckets_err_iff (start factor : UInt64) (count : Nat) :
+    exponentialBuckets start factor count = none ↔
+      count < 1 ∨ f64Le start f64Zero = true ∨ f64Le factor f64One = true := by
+  unfold exponentialBuckets
+  by_cases hc : count < 1
+  · simp [hc]
+  · by_cases hs : f64Le start f64Zero = true
+    · simp [hs]
+    · by_cases hf : f64Le factor f64One = true
+      · simp [hf]
+      · simp [hc, hs, hf]
+
+/-- NaN `start` and NaN `factor` are accepted (`Ok`) when the other arguments are valid -/
+theorem exponential_buckets_nan_accepted (start factor : UInt64) (count : Nat) (hc : 1 ≤ count)
+    (hs : f64IsNaN start = true ∨ f64Le start f64Zero = false)
+    (hf : f64IsNaN factor = true ∨ f64Le factor f64One = false) :
+    (exponentialBuckets start factor count).isSome = true := by
+  cases h : exponentialBuckets start factor count with
+  | some l => rfl
+  | none =>
+    rcases (exponential_buckets_err_iff start factor count).1 h with h | h | h
+    · omega
+    · rcases hs with hs | hs
+      · rw [f64Le_nan_left start f64Zero hs] at h; cases h
+      · rw [hs] at h; cases h
+    · rcases hf with hf | hf
+      · rw [f64Le_nan_left factor f64One hf] at h; cases h
+      · rw [hf] at h; cases h
+
+/-- **exponential_buckets_length** — on success the result has exactly `count` entries -/
+theorem exponential_buckets_length (start factor : UInt64) (count : Nat) (l : List UInt64)
+    (h : exponentialBuckets start factor count = some l) : l.length = count := by
+  unfold exponentialBuckets at h
+  split at h
+  · cases h
+  · split at h
+    · cases h
+    · split at h
+      · cases h
+      · cases h
+        exact expLoop_length factor count start
+
+/-- on success the first entry is `start` and every further entry is the previous one times
+    `factor` -/
+theorem exponential_buckets_entries (start factor : UInt64) (count : Nat) (l : List UInt64)
+    (h : exponentialBuckets start factor count = some l) :
+    l[0]? = some start ∧ ∀ i a, i + 1 < count → l[i]? = some a → l[i + 1]? = some (f64Mul a factor) := by
+  unfold exponentialBuckets at h
+  split at h
+  · cases h
+  · rename_i hc
+    split at h
+    · cases h
+    · split at h
+      · cases h
+      · cases h
+        constructor
+        · cases count with
+          | zero => omega
+          | succ k => rfl
+        · intro i a hi ha
+          exact expLoop_step factor count start i a hi ha
+
+/-- **no_panic (linear_buckets)** — for every `start`, `width` and every `count < 2^60`
+    (`8 * count ≤ isize::MAX`, so the `Vec` capacity request does not overflow) the function returns
+    `Ok` or `Err`, and these are exactly the `Some` / `None` of the sequential model -/
+theorem linearBucketsP_eq (start width : UInt64) (count : Nat) (hb : count < 2 ^ 60) :
+    linearBucketsP start width count = Outcome.ofOption (linearBuckets start width count) := by
+  unfold linearBucketsP linearBuckets
+  rw [vecWithCapacityP_ok count hb]
+  split
+  · rfl
+  · split
+    · rfl
+    · rfl
+
+theorem linearBucketsP_no_panic (start width : UInt64) (count : Nat) (hb : count < 2 ^ 60) :
+    (linearBucketsP start width count).isPanic = false := by
+  rw [linearBucketsP_eq start width count hb]
+  cases linearBuckets start width count <;> rfl
+
+/-- the bound is sharp: the only panic is the capacity overflow of an otherwise valid call -/
+theorem linearBucketsP_panic_iff (start width : UInt64) (count : Nat) :
+    (linearBucketsP start width count).isPanic = true ↔ 2 ^ 60 ≤ count ∧ f64Le width f64Zero = false := by
+  by_cases hb : count < 2 ^ 60
+  · rw [linearBucketsP_no_panic start width count hb]
+    constructor
+    · intro h; cases h
+    · rintro ⟨h, _⟩; omega
+  · have hb' : 2 ^ 60 ≤ count := by omega
+    have hc : ¬ count < 1 := by omega
+    unfold linearBucketsP
+    rw [vecWithCapacityP_panic count hb', if_neg hc]
+    cases hw : f64Le width f64Zero
+    · simp [Outcome.bind, Outcome.isPanic, hb']
+    · simp [Outcome.isPanic]
+
+/-- **no_panic (exponential_buckets)** — likewise for `exponential_buckets` -/
+theorem exponentialBucketsP_eq (start factor : UInt64) (count : Nat) (hb : count < 2 ^ 60) :
+    exponentialBucketsP start factor count = Outcome.ofOption (exponentialBuckets start factor count) := by
+  unfold exponentialBucketsP exponentialBuckets
+  rw [vecWithCapacityP_ok count hb]
+  split
+  · rfl
+  · split
+    · rfl
+    · split
+      · rfl
+      · rfl
+
+theorem exponentialBucketsP_no_panic (start factor : UInt64) (count : Nat) (hb : count < 2 ^ 60) :
+    (exponentialBucketsP start factor count).isPanic = false := by
+  rw [exponentialBucketsP_eq start factor count hb]
+  cases exponentialBuckets start factor count <;> rfl
+
+theorem exponentialBucketsP_panic_iff (start factor : UInt64) (count : Nat) :
+    (exponentialBucketsP start factor count).isPanic = true ↔
+      2 ^ 60 ≤ count ∧ f64Le start f64Zero = false ∧ f64Le factor f64One = false := by
+  by_cases hb : count < 2 ^ 60
+  · rw [exponentialBucketsP_no_panic start factor count hb]
+    constructor
+    · intro h; cases h
+    · rintro ⟨h, _⟩; omega
+  · have hb' : 2 ^ 60 ≤ count := by omega
+    have hc : ¬ count < 1 := by omega
+    unfold exponentialBucketsP
+    rw [vecWithCapacityP_panic count hb', if_neg hc]
+    cases hs : f64Le start f64Zero <;> cases hf : f64Le factor f64One <;>
+      simp [Outcome.bind, Outcome.isPanic, hb']
+
+/-- invalid arguments are `Err` in the panic-explicit model for *every* `count` (the checks come
+    before the allocation) -/
+theorem linearBucketsP_err_iff (start width : UInt64) (count : Nat) :
+    linearBucketsP start width count = .err ↔ count < 1 ∨ f64Le width f64Zero = true := by
+  unfold linearBucketsP vecWithCapacityP
+  by_cases hc : count < 1
+  · simp [hc]
+  · by_cases hw : f64Le width f64Zero = true
+    · simp [hw]
+    · rw [if_neg hc, if_neg hw]
+      constructor
+      · intro h
+        by_cases hcap : 8 * count ≤ isizeMax
+        · rw [if_pos hcap] at h; cases h
+        · rw [if_neg hcap] at h; cases h
+      · rintro (h | h)
+        · exact absurd h hc
+        · exact absurd h hw
+
+theorem exponentialBucketsP_err_iff (start factor : UInt64) (count : Nat) :
+    exponentialBucketsP start factor count = .err ↔
+      count < 1 ∨ f64Le start f64Zero = true ∨ f64Le factor f64One = true := by
+  unfold exponentialBucketsP vecWithCapacityP
+  by_cases hc : count < 1
+  · simp [hc]
+  · by_cases hs : f64Le start f64Zero = true
+    · simp [hs]
+    · by_cases hf : f64Le factor f64One = true
+      · simp [hf]
+      · rw [if_neg hc, if_neg hs, if_neg hf]
+        constructor
+        · intro h
+          by_cases hcap : 8 * count ≤ isizeMax
+          · rw [if_pos hcap] at h; cases h
+          · rw [if_neg hcap] at h; cases h
+        · rintro (h | h | h)
+          · exact absurd h hc
+          · exact absurd h hs
+          · exact absurd h hf
+
+/-- non-vacuity: width NaN accepted, width -0.0 refused, count 0 refused; factor 1.0 refused -/
+example : (linearBuckets f64One 0x7FF8000000000000 3).isSome = true := by decide
+example : linearBuckets f64One 0x8000000000000000 3 = none := by decide
+example : linearBuckets f64One f64One 0 = none := by decide
+example : exponentialBuckets f64One f64One 3 = none := by decide
+example : (exponentialBuckets f64One 0x4000000000000000 3).map List.length = some 3 := by decide
 
 /-! ### label pairs -/
 
